@@ -370,6 +370,8 @@ func runBlockBase(sc *BlockCase, res *BlockResult) {
 				pkts = [][]byte{netsim.PingResp(), netsim.PingResp()}
 			case "foreignAcks":
 				pkts = [][]byte{netsim.Ack(0x40, 901), netsim.Ack(0x50, 902), netsim.Ack(0x70, 903), netsim.SubAck(904, []byte{0}), netsim.Ack(0xB0, 905)}
+			case "connacks":
+				pkts = [][]byte{netsim.ConnAck(false, 0), netsim.ConnAck(false, 0), netsim.ConnAck(false, 0)}
 			case "inbound":
 				pkts = [][]byte{netsim.Publish("in", []byte("x"), 0, 0, false, false), netsim.Publish("in", []byte("y"), 1, 906, false, false)}
 			}
